@@ -144,7 +144,10 @@ def main(pid):
     # well-formed bold runs with self-closing elements (<br/>), and style runs with TWO annotations
     # (a style-tag repair that extends a span over the next one)
     for extra_cfg, const in (("MC_Annotate_wfsc.cfg", "WfOnly tokens t1 <b> </b> <br/> MaxToks=7 MaxAnns=1"),
-                             ("MC_Annotate_style2.cfg", "WfOnly tokens t1 <i> </i> MaxToks=6 MaxAnns=2")):
+                             ("MC_Annotate_style2.cfg", "WfOnly tokens t1 <i> </i> MaxToks=6 MaxAnns=2"),
+                             # sources that LACK parts of the plain text (deletions in the diff, also leading ones)
+                             ("MC_Annotate_del6.cfg" if thorough else "MC_Annotate_del.cfg", "tokens t1 d1 (plain-only text) MaxToks=%d MaxAnns=2" % (6 if thorough else 5)),
+                             ("MC_Annotate_deltag.cfg", "tokens t1 d1 <i> </i> MaxToks=5 MaxAnns=1")):
         r = run_tlc("MC_Annotate", extra_cfg, timeout=3000)
         tlc_must_pass(r, extra_cfg)
         ev.add_tlc(extra_cfg, r, const)
